@@ -524,6 +524,39 @@ def rule_o5(F):
     return r
 
 
+LOOKUPS = {"find", "rfind", "find_map", "position", "rposition", "get", "get_mut", "index", "nth", "last", "first", "binary_search", "binary_search_by",
+           "binary_search_by_key", "remove", "swap_remove", "pop", "max_by_key", "min_by_key", "max_by", "min_by", "sort", "sort_by", "sort_by_key",
+           "sort_unstable", "sort_unstable_by", "sort_unstable_by_key", "rev", "next_back", "skip", "step_by", "dedup", "retain", "drain"}
+O6_VISITS = {"expr", "stmt", "block", "block_expr"}
+
+
+def rule_o6(F):
+    """Source order: a sub-expression that is one of several children of an AST node (fields of a record literal, elements, arguments,
+    statements, arms) reaches its visit by TRAVERSING the node's own child list, never by looking it up (by name, by index, in the order
+    of some other table such as the fields of the record's type)."""
+    r = RuleResult("C08.O6", "children are visited by traversing the AST node's own list, not by lookup in it", floor=12)
+    for b in F.bodies_in(["src/mir/lower.rs", "src/mir/lower/match_expr.rs"]):
+        if not b.mir:
+            continue
+        defs = None
+        for bi, t in mir.calls(b):
+            nm = hir.last(mir.callee(t))
+            if nm not in O6_VISITS or "Lowerer" not in mir.callee(t):
+                continue
+            defs = defs or mir.Defs(b)
+            for a in t["args"][1:]:
+                if not mir.is_place_op(a) or "ast::" not in b.mir["locals"][a[1][0]]["ty"]:
+                    continue
+                ch = [hir.last(c[2]) for c in mir.value_chain(b, defs, a[1][0])]
+                n = sum(1 for k in r.instances if k.startswith("%s -> %s" % (hir.last(b.path), nm)))
+                r.inst("%s -> %s #%d" % (hir.last(b.path), nm, n), {"fn": b.path, "line": t["line"], "visit": nm, "child_obtained_through": ch[:8]})
+                bad = [x for x in ch if x in LOOKUPS]
+                if bad:
+                    r.bad(b.path, "%s of a child obtained through %s" % (nm, bad[0]), relfile(b.file), t["line"],
+                          "the sub-expression passed to %s is selected with `%s` instead of being the current element of a traversal of the node's children: the children are evaluated in the order of whatever drives the lookup (e.g. the field order of the type), not in source order" % (nm, bad[0]))
+    return r
+
+
 def rules(ctx):
     F = ctx["F"]
-    return [rule_o1(F), rule_o2(F), rule_o3(F), rule_o4(F), rule_o5(F)]
+    return [rule_o1(F), rule_o2(F), rule_o3(F), rule_o4(F), rule_o5(F), rule_o6(F)]
